@@ -1,5 +1,5 @@
 From Coq Require Import List NArith Bool Lia PeanoNat.
-From STH Require Import Log Lex Put Sdiff Index Index2 Index3 IndexSpec Store IndexSpec2 IndexStore GCIndex Primary Refine GInv Translate TransA Conc ConcU.
+From STH Require Import Log Lex Put Sdiff Index Index2 Index3 IndexSpec Store IndexSpec2 IndexStore GCIndex Primary Refine RefineGC GInv Translate TransA Conc ConcU.
 Import ListNotations.
 Open Scope N_scope.
 
@@ -7,7 +7,8 @@ Open Scope N_scope.
    programs of atomic steps — one step per critical section of the real code:
      index lookup (bucket lock held) | primary read (outside it) | primary pool append | index insert / update / remove
    A schedule is any list of thread numbers.  Ghost state: the specification map, changed only at linearization points. *)
-Inductive call2 := QPut (k v : bytes) | QGet (k : bytes) | QRemove (k : bytes) | QHas (k : bytes) | QSize (k : bytes) | QFlush.
+Inductive call2 := QPut (k v : bytes) | QGet (k : bytes) | QRemove (k : bytes) | QHas (k : bytes) | QSize (k : bytes) | QFlush
+               | QIgcCycle (scanFree : bool).           (* one index GC cycle, one file per step *)
 Inductive pc2 :=
 | QStart (c : call2)
 | QPutB (k v ik : bytes)                                  (* key seen absent; next: append to the primary pool *)
@@ -19,7 +20,27 @@ Inductive pc2 :=
 | QSizeB (k ik : bytes) (b : block) (lin : out)           (* GetSize: the same two steps, the answer is the value's length *)
 | QRemB (k ik : bytes) (b : block)                        (* index looked up; next: read the primary and compare keys *)
 | QRemC (k ik : bytes) (b : block)                        (* next: remove the index entry, free b (linearization point) *)
+| QIgc (last f : N)                                       (* index GC: next file to reap; [last] = the current file number read when the cycle began *)
 | QDone (r lin : out).
+
+(* the file numbers of the index are touched by flushes and collectors only *)
+Lemma set_next_nums ix b l : ifirst (set_next ix b l) = ifirst ix /\ ifile (set_next ix b l) = ifile ix.
+Proof. split; reflexivity. Qed.
+Lemma idx_put_key_nums ix ka k loc : ifirst (idx_put_key ix ka k loc) = ifirst ix /\ ifile (idx_put_key ix ka k loc) = ifile ix.
+Proof.
+  unfold idx_put_key. destruct (idx_records ix (bucket_of ix k)); [|split; reflexivity].
+  destruct (idx_put ka (strip ix k) loc e); split; reflexivity.
+Qed.
+Lemma idx_update_nums ix k loc ix' : idx_update ix k loc = UOk ix' -> ifirst ix' = ifirst ix /\ ifile ix' = ifile ix.
+Proof.
+  unfold idx_update. destruct (idx_records ix (bucket_of ix k)); [|discriminate].
+  destruct (eget (strip ix k) e None); [|discriminate]. intros H; inversion H; subst. split; reflexivity.
+Qed.
+Lemma idx_remove_nums ix k : ifirst (fst (idx_remove ix k)) = ifirst ix /\ ifile (fst (idx_remove ix k)) = ifile ix.
+Proof.
+  unfold idx_remove. destruct (idx_records ix (bucket_of ix k)); [|split; reflexivity].
+  destruct (eget (strip ix k) e None); split; reflexivity.
+Qed.
 
 Section Prog.
 Variable imm : bool.
@@ -119,6 +140,18 @@ Definition istep2 (s : store) (m : smap) (p : pc2) : store * smap * pc2 :=
       let (ix, rm) := idx_remove (sidx s) ik in
       (mk s ix (spri s) (if rm then sfree_pool s ++ [b] else sfree_pool s) (sfree_file s), fst (spec_step imm m (ORemove k)),
        QDone (RBool rm) (snd (spec_step imm m (ORemove k))))
+  | QStart (QIgcCycle sf) =>
+      (* the free-file scan (if requested), then the file loop from the first file to the file that was current when the cycle began *)
+      let ix := sidx s in
+      let ix1 := if sf then trunc_free (S (N.to_nat (ifile ix))) ix (ifirst ix) else ix in
+      if ifirst ix1 =? ifile ix1 then (with_idx s ix1, m, QDone ROk ROk) else (with_idx s ix1, m, QIgc (ifile ix1) (ifirst ix1))
+  | QIgc last f =>
+      if f =? last then (s, m, QDone ROk ROk) else
+      let (ix1, stale) := reap_index_file (sidx s) f in
+      let ix2 := if stale && (ifirst ix1 =? f)
+                 then set_idx ix1 (inext ix1) (icur ix1) (itable ix1) (adel f (ifiles ix1)) (f + 1) (ifile ix1) (ilen ix1) (iresume ix1)
+                 else ix1 in
+      (with_idx s ix2, m, QIgc last (f + 1))
   | QDone r lin => (s, m, QDone r lin)
   end.
 
@@ -146,7 +179,8 @@ Definition wkey2 (p : pc2) : option bytes :=
 Definition know2 (s : store) (m : smap) (p : pc2) : Prop :=
   match p with
   | QStart (QPut k _) | QStart (QGet k) | QStart (QRemove k) | QStart (QHas k) | QStart (QSize k) => forall ik, mh_digest k = Some ik -> U ik
-  | QStart QFlush => True
+  | QStart QFlush | QStart (QIgcCycle _) => True
+  | QIgc last f => f <= last /\ last <= ifile (sidx s)
   | QPutB k v ik => mh_digest k = Some ik /\ U ik /\ m ik = None
   | QPutC k v ik loc => mh_digest k = Some ik /\ U ik /\ m ik = None /\ solid (spri s) loc k v
   | QUpdB k v ik prev => mh_digest k = Some ik /\ imm = false /\ exists k0 v0, m ik = Some (k0, v0) /\ beq v v0 = false
@@ -174,16 +208,18 @@ Definition writers_distinct2 (ps : list pc2) : Prop :=
 Record CInv2 (c : cfg2) : Prop := {
   c2_r : R bits U (fst (fst c)) (snd (fst c));
   c2_know : forall t p, nth_error (snd c) t = Some p -> know2 (fst (fst c)) (snd (fst c)) p;
-  c2_dist : writers_distinct2 (snd c) }.
+  c2_dist : writers_distinct2 (snd c);
+  c2_first : ifirst (sidx (fst (fst c))) <= ifile (sidx (fst (fst c))) }.
 
 Lemma know2_stable s m s' m' p w :
   (forall b k v, solid (spri s) b k v -> solid (spri s') b k v) ->
   (forall ik, w <> Some ik -> m' ik = m ik) ->
   (forall ik, wkey2 p = Some ik -> w <> Some ik) ->
+  ifile (sidx s) <= ifile (sidx s') ->
   know2 s m p -> know2 s' m' p.
 Proof.
-  intros Hsol Hm Hw.
-  destruct p as [[k v|k|k|k|k|]|k v ik|k v ik loc|k v ik prev|k v ik prev loc|ik b lin|ik b lin|k ik b lin|k ik b|k ik b|r lin]; cbn [know2 wkey2] in *; auto.
+  intros Hsol Hm Hw Hfile.
+  destruct p as [[k v|k|k|k|k| |sf]|k v ik|k v ik loc|k v ik prev|k v ik prev loc|ik b lin|ik b lin|k ik b lin|k ik b|k ik b|last f|r lin]; cbn [know2 wkey2] in *; auto.
   - intros (A & B & C). split; [exact A|]. split; [exact B|]. rewrite Hm; [exact C|]. apply Hw. reflexivity.
   - intros (A & B & C & D). split; [exact A|]. split; [exact B|]. split; [|apply Hsol; exact D].
     rewrite Hm; [exact C|]. apply Hw. reflexivity.
@@ -197,26 +233,28 @@ Proof.
   - intros (A & k1 & v1 & Hs & H). split; [exact A|]. exists k1, v1. split; [apply Hsol; exact Hs|].
     rewrite Hm by (apply Hw; reflexivity). exact H.
   - intros (A & k1 & v1 & H). split; [exact A|]. exists k1, v1. rewrite Hm by (apply Hw; reflexivity). exact H.
+  - intros (A & B). split; [exact A|]. lia.
 Qed.
 
 Theorem step_inv2 c t : CInv2 c -> CInv2 (sched_step2 c t).
 Proof.
-  destruct c as [[s m] ps]. intros [HR Hk Hd]. cbn [fst snd] in *. unfold sched_step2.
+  destruct c as [[s m] ps]. intros [HR Hk Hd Hfo]. cbn [fst snd] in *. unfold sched_step2.
   destruct (nth_error ps t) as [p|] eqn:Hp; [|constructor; auto].
   pose proof (Hk t p Hp) as Kp. pose proof (r_pinv _ _ _ _ HR) as PI.
   (* a step that takes the shared state from (s, m) to (s1, m1), writing at most the key [w] of the stepping thread *)
   assert (Change : forall s1 m1 p' w,
              R bits U s1 m1 ->
+             (ifirst (sidx s1) <= ifile (sidx s1) /\ ifile (sidx s) <= ifile (sidx s1)) ->
              (forall b k v, solid (spri s) b k v -> solid (spri s1) b k v) ->
              (forall ik, w <> Some ik -> m1 ik = m ik) ->
              (forall ik, w = Some ik -> wkey2 p = Some ik) ->
              know2 s1 m1 p' -> (forall ik, wkey2 p' = Some ik -> wkey2 p = Some ik) ->
              CInv2 (s1, m1, set_nth t p' ps)).
-  { intros s1 m1 p' w HR1 Hsol Hm1 Hwp Kp' Hw. constructor; cbn [fst snd]; [exact HR1| |].
+  { intros s1 m1 p' w HR1 [Hfo1 Hfile1] Hsol Hm1 Hwp Kp' Hw. constructor; cbn [fst snd]; [exact HR1| | |exact Hfo1].
     - intros t' q Hq. destruct (Nat.eq_dec t t') as [<-|Hne].
       + rewrite (nth_set_nth_same ps t p' p Hp) in Hq. inversion Hq; subst. exact Kp'.
       + rewrite nth_set_nth_other in Hq by exact Hne.
-        apply (know2_stable s m s1 m1 q w Hsol Hm1); [|apply (Hk t' q Hq)].
+        apply (know2_stable s m s1 m1 q w Hsol Hm1); [|exact Hfile1|apply (Hk t' q Hq)].
         intros ik Hwq Heq. assert (Hne' : t' <> t) by congruence.
         apply (Hd t' t q p ik Hne' Hq Hp Hwq). apply Hwp. exact Heq.
     - intros i j pi pj ik Hij Hi Hj Hwi.
@@ -227,8 +265,8 @@ Proof.
         rewrite nth_set_nth_other in Hi by exact Hti. intros Hwj. apply (Hd i t pi p ik Hij Hi Hp Hwi). apply Hw; exact Hwj.
       + rewrite nth_set_nth_other in Hi by exact Hti. rewrite nth_set_nth_other in Hj by exact Htj. apply (Hd i j pi pj _ Hij Hi Hj Hwi). }
   assert (Same : forall p', know2 s m p' -> (forall ik, wkey2 p' = Some ik -> wkey2 p = Some ik) -> CInv2 (s, m, set_nth t p' ps)).
-  { intros p' Kp' Hw. apply (Change s m p' None); auto. intros; discriminate. }
-  destruct p as [[k v|k|k|k|k|]|k v ik|k v ik loc|k v ik prev|k v ik prev loc|ik b lin|ik b lin|k ik b lin|k ik b|k ik b|r lin]; cbn [istep2].
+  { intros p' Kp' Hw. apply (Change s m p' None); auto; [split; [exact Hfo|lia]|intros; discriminate]. }
+  destruct p as [[k v|k|k|k|k| |sf]|k v ik|k v ik loc|k v ik prev|k v ik prev loc|ik b lin|ik b lin|k ik b lin|k ik b|k ik b|last f|r lin]; cbn [istep2].
   - (* Put: look the key up *)
     cbn [know2] in Kp. destruct (mh_digest k) as [ik|] eqn:Hdk; [|apply Same; [reflexivity|intros ? H; discriminate]].
     specialize (Kp ik eq_refl).
@@ -314,10 +352,40 @@ Proof.
       destruct (pri_flush_spec (spri s) PI) as (_ & Hfr & _).
       apply (Change _ m (QDone ROk ROk) None).
       * apply (sim_flush bits U s m _ HR Hcov).
+      * cbn [mk sidx]. destruct (idx_flush_first (map fst (inext (sidx s))) (sidx s)) as [F1 F2]. split; lia.
       * exact Hfr.
       * reflexivity.
       * intros; discriminate.
       * reflexivity.
+      * intros ? H; discriminate.
+  - (* index GC cycle begins: the free-file scan, then the bounds of the file loop *)
+    assert (I : IInv' (sidx s)) by (constructor; [apply (r_iinv _ _ _ _ HR)|exact Hfo]).
+    cbv zeta.
+    assert (H1 : IInv' (if sf then trunc_free (S (N.to_nat (ifile (sidx s)))) (sidx s) (ifirst (sidx s)) else sidx s) /\
+                 same_view (sidx s) (if sf then trunc_free (S (N.to_nat (ifile (sidx s)))) (sidx s) (ifirst (sidx s)) else sidx s)).
+    { destruct sf; [apply trunc_free_spec; auto | split; [exact I|apply same_view_refl]]. }
+    destruct H1 as [I1 (Hrec & Hfile & Hb)].
+    set (ix1 := if sf then trunc_free (S (N.to_nat (ifile (sidx s)))) (sidx s) (ifirst (sidx s)) else sidx s) in *.
+    assert (HR1 : R bits U (with_idx s ix1) m).
+    { unfold with_idx. apply R_same; auto; [apply I1|rewrite Hb; apply (r_bits _ _ _ _ HR)]. }
+    assert (Hn : ifirst (sidx (with_idx s ix1)) <= ifile (sidx (with_idx s ix1)) /\ ifile (sidx s) <= ifile (sidx (with_idx s ix1))).
+    { unfold with_idx. cbn [mk sidx]. split; [apply (ii_first _ I1)|lia]. }
+    destruct (ifirst ix1 =? ifile ix1).
+    + apply (Change _ m (QDone ROk ROk) None).
+      * exact HR1.
+      * exact Hn.
+      * intros b0 k0 v0 H0. exact H0.
+      * reflexivity.
+      * intros; discriminate.
+      * reflexivity.
+      * intros ? H; discriminate.
+    + apply (Change _ m (QIgc (ifile ix1) (ifirst ix1)) None).
+      * exact HR1.
+      * exact Hn.
+      * intros b0 k0 v0 H0. exact H0.
+      * reflexivity.
+      * intros; discriminate.
+      * cbn [know2]. unfold with_idx. cbn [mk sidx]. split; [apply (ii_first _ I1)|lia].
       * intros ? H; discriminate.
   - (* Put of a new key: append to the primary pool — a stutter *)
     cbn [know2] in Kp. destruct Kp as (Hdk & Hu & Hm).
@@ -325,6 +393,7 @@ Proof.
     destruct (pri_put (spri s) k v) as [p' loc] eqn:Hpp. cbn [fst snd] in *.
     apply (Change (mk s (sidx s) p' (sfree_pool s) (sfree_file s)) m (QPutC k v ik loc) None).
     + apply R_same; auto. apply (r_iinv _ _ _ _ HR). apply (r_bits _ _ _ _ HR).
+    + cbn [mk sidx]. split; [exact Hfo|lia].
     + exact Hfr.
     + reflexivity.
     + intros; discriminate.
@@ -337,6 +406,7 @@ Proof.
     rewrite Hspec. cbn [fst snd].
     apply (Change _ (supd m ik (k, v)) (QDone ROk ROk) (Some ik)).
     + exact HR1.
+    + unfold with_idx. cbn [mk sidx]. destruct (idx_put_key_nums (sidx s) (key_at_of s) ik loc) as [F1 F2]. rewrite F1, F2. split; [exact Hfo|lia].
     + intros b0 k0 v0 H0. exact H0.
     + intros ik0 Hne0. apply supd_other. congruence.
     + intros ik0 H. inversion H; subst. reflexivity.
@@ -348,6 +418,7 @@ Proof.
     destruct (pri_put (spri s) k v) as [p' loc] eqn:Hpp. cbn [fst snd] in *.
     apply (Change (mk s (sidx s) p' (sfree_pool s) (sfree_file s)) m (QUpdC k v ik prev loc) None).
     + apply R_same; auto. apply (r_iinv _ _ _ _ HR). apply (r_bits _ _ _ _ HR).
+    + cbn [mk sidx]. split; [exact Hfo|lia].
     + exact Hfr.
     + reflexivity.
     + intros; discriminate.
@@ -362,6 +433,7 @@ Proof.
     rewrite Hspec. cbn [fst snd].
     apply (Change _ (supd m ik (k, v)) (QDone ROk ROk) (Some ik)).
     + apply HR1.
+    + cbn [mk sidx]. destruct (idx_update_nums _ _ _ _ Hup) as [F1 F2]. rewrite F1, F2. split; [exact Hfo|lia].
     + intros b0 k1 v1 H0. exact H0.
     + intros ik0 Hne0. apply supd_other. congruence.
     + intros ik0 H. inversion H; subst. reflexivity.
@@ -400,10 +472,38 @@ Proof.
     rewrite Hspec. cbn [fst snd].
     apply (Change _ (sdel m ik) (QDone (RBool true) (RBool true)) (Some ik)).
     + apply HR1.
+    + cbn [mk sidx]. pose proof (idx_remove_nums (sidx s) ik) as [F1 F2]. rewrite Hrm in F1, F2. cbn [fst] in F1, F2. rewrite F1, F2. split; [exact Hfo|lia].
     + intros b0 k0 v0 H0. exact H0.
     + intros ik0 Hne0. apply sdel_other. congruence.
     + intros ik0 H. inversion H; subst. reflexivity.
     + reflexivity.
+    + intros ? H; discriminate.
+  - (* index GC: one file - mark, merge, truncate, unlink if it is the first and empty *)
+    cbn [know2] in Kp. destruct Kp as [Hfl Hlast].
+    destruct (N.eqb_spec f last) as [->|Hne]; [apply Same; [reflexivity|intros ? H; discriminate]|].
+    assert (Hlt : f < ifile (sidx s)) by lia.
+    assert (I : IInv' (sidx s)) by (constructor; [apply (r_iinv _ _ _ _ HR)|exact Hfo]).
+    destruct (reap_file (sidx s) f I Hlt) as (A & B & C1 & C2 & C3 & C4 & C5 & Hstale).
+    destruct (reap_index_file (sidx s) f) as [ix1 stale]. cbn [fst snd] in *. cbv zeta.
+    assert (H2 : exists ix2, ix2 = (if stale && (ifirst ix1 =? f)
+                   then set_idx ix1 (inext ix1) (icur ix1) (itable ix1) (adel f (ifiles ix1)) (f + 1) (ifile ix1) (ilen ix1) (iresume ix1) else ix1) /\
+                 IInv' ix2 /\ (forall b, idx_records ix2 b = idx_records (sidx s) b) /\ ifile ix2 = ifile (sidx s) /\ ibits ix2 = ibits (sidx s)).
+    { eexists; split; [reflexivity|]. destruct (stale && (ifirst ix1 =? f)) eqn:Hdel.
+      - apply andb_true_iff in Hdel. destruct Hdel as [-> Hfirst]. apply N.eqb_eq in Hfirst.
+        destruct (Hstale eq_refl) as [Hun _].
+        fold (with_files ix1 (adel f (ifiles ix1)) (f + 1)).
+        destruct (drop_file ix1 f (adel f (ifiles ix1)) (f + 1) A) as (A2 & B2); auto; try lia; [intros; apply aget_adel_other; auto|].
+        split; [exact A2|]. split; [intros b; rewrite B2; apply B|]. split; [exact C1|exact C2].
+      - split; [exact A|]. split; [exact B|]. split; [exact C1|exact C2]. }
+    destruct H2 as (ix2 & -> & I2 & Hrec2 & Hfile2 & Hb2).
+    match goal with |- CInv2 (with_idx s ?ix, _, _) => set (ix2 := ix) in * end.
+    apply (Change (with_idx s ix2) m (QIgc last (f + 1)) None).
+    + unfold with_idx. apply R_same; auto; [apply I2|rewrite Hb2; apply (r_bits _ _ _ _ HR)].
+    + unfold with_idx. cbn [mk sidx]. split; [apply (ii_first _ I2)|lia].
+    + intros b0 k0 v0 H0. exact H0.
+    + reflexivity.
+    + intros; discriminate.
+    + cbn [know2]. unfold with_idx. cbn [mk sidx]. split; lia.
     + intros ? H; discriminate.
   - apply Same; [exact Kp|intros ? H; discriminate].
 Qed.
@@ -411,11 +511,11 @@ Qed.
 Lemma exec_inv2 sched : forall c, CInv2 c -> CInv2 (exec2 c sched).
 Proof. induction sched as [|t sched IH]; intros c HI; cbn [exec2 fold_left]; [exact HI|]. apply IH. apply step_inv2; exact HI. Qed.
 
-Definition call_key (c : call2) : bytes := match c with QPut k _ | QGet k | QRemove k | QHas k | QSize k => k | QFlush => [] end.
+Definition call_key (c : call2) : bytes := match c with QPut k _ | QGet k | QRemove k | QHas k | QSize k => k | QFlush | QIgcCycle _ => [] end.
 Definition is_writer (c : call2) : bool := match c with QPut _ _ | QRemove _ => true | _ => false end.
 (* every thread is about to start one call; no two WRITERS (Put / Remove) address the same key *)
 Definition init_ok2 (s : store) (m : smap) (calls : list call2) : Prop :=
-  R bits U s m /\
+  R bits U s m /\ ifirst (sidx s) <= ifile (sidx s) /\
   (forall c ik, In c calls -> mh_digest (call_key c) = Some ik -> U ik) /\
   (forall i j ci cj ik, i <> j -> nth_error calls i = Some ci -> nth_error calls j = Some cj ->
                         is_writer ci = true -> is_writer cj = true ->
@@ -423,14 +523,14 @@ Definition init_ok2 (s : store) (m : smap) (calls : list call2) : Prop :=
 
 Lemma init_inv2 s m calls : init_ok2 s m calls -> CInv2 (s, m, map QStart calls).
 Proof.
-  intros (HR & HUk & Hdist). constructor; cbn [fst snd]; [exact HR| |].
+  intros (HR & Hfo & HUk & Hdist). constructor; cbn [fst snd]; [exact HR| | |exact Hfo].
   - intros t p Hp. rewrite nth_error_map in Hp. destruct (nth_error calls t) as [c|] eqn:Hc; [|discriminate].
-    inversion Hp; subst p. apply nth_error_In in Hc. destruct c as [k v|k|k|k|k|]; cbn [know2]; [| | | | |exact I]; intros ik Hd; apply (HUk _ ik Hc Hd).
+    inversion Hp; subst p. apply nth_error_In in Hc. destruct c as [k v|k|k|k|k| |sf]; cbn [know2]; [| | | | |exact I|exact I]; intros ik Hd; apply (HUk _ ik Hc Hd).
   - intros i j pi pj ik Hij Hi Hj Hw. rewrite nth_error_map in Hi, Hj.
     destruct (nth_error calls i) as [ci|] eqn:Hci; [|discriminate]. destruct (nth_error calls j) as [cj|] eqn:Hcj; [|discriminate].
     inversion Hi; inversion Hj; subst pi pj.
-    destruct ci as [k v|k|k|k|k|]; cbn [wkey2] in Hw; try discriminate;
-      destruct cj as [k' v'|k'|k'|k'|k'|]; cbn [wkey2]; try discriminate;
+    destruct ci as [k v|k|k|k|k| |sf]; cbn [wkey2] in Hw; try discriminate;
+      destruct cj as [k' v'|k'|k'|k'|k'| |sf']; cbn [wkey2]; try discriminate;
       eapply (Hdist i j _ _ ik Hij Hci Hcj); reflexivity || exact Hw.
 Qed.
 
@@ -445,7 +545,7 @@ Theorem conc_linearizable2 s m calls sched :
   R bits U s' m' /\ forall t r lin, nth_error ps t = Some (QDone r lin) -> r = lin.
 Proof.
   intros Hok. pose proof (exec_inv2 sched _ (init_inv2 s m calls Hok)) as HI.
-  destruct (exec2 (s, m, map QStart calls) sched) as [[s' m'] ps]. destruct HI as [HR Hk _]. cbn [fst snd] in *.
+  destruct (exec2 (s, m, map QStart calls) sched) as [[s' m'] ps]. destruct HI as [HR Hk _ _]. cbn [fst snd] in *.
   split; [exact HR|]. intros t r lin Ht. apply (Hk t _ Ht).
 Qed.
 End Prog.
